@@ -68,12 +68,8 @@ class Env:
         env = self
 
         def __new__(cls_, *args: Any, **kwargs: Any):
-            env.alloc_index += 1
             env.bump("seam:heap.ndpoly_allocs")
-            if env.alloc_fail_at is not None and env.alloc_index == env.alloc_fail_at:
-                env.alloc_fail_at = None
-                env.bump("fault:alloc_memoryerror.fired")
-                raise MemoryError("simulated allocation failure")
+            env.alloc_tick()
             obj = orig(cls_, *args, **kwargs)
             if env.fill is not None and "buffer" not in kwargs:
                 if env.guarded and obj.nbytes:
@@ -99,6 +95,15 @@ class Env:
         self.installed = False
 
     # -- heap --------------------------------------------------------------
+    def alloc_tick(self) -> None:
+        """One allocation request made by numpoly code (an ndpoly, or a call of a numpy array-creating
+        function through a module-global ``numpy``).  The k-th one of a step can be made to fail."""
+        self.alloc_index += 1
+        if self.alloc_fail_at is not None and self.alloc_index == self.alloc_fail_at:
+            self.alloc_fail_at = None
+            self.bump("fault:alloc_memoryerror.fired")
+            raise MemoryError("simulated allocation failure")
+
     def _pattern(self, n: int) -> bytes:
         fill = self.fill
         if fill == "zero":
@@ -128,7 +133,6 @@ class Env:
     def fill_plain(self, arr: Any) -> Any:
         """For numpy.empty / empty_like results."""
         if self.fill is not None and isinstance(arr, real_numpy.ndarray) and arr.nbytes and arr.flags.c_contiguous | arr.flags.f_contiguous:
-            self.alloc_index += 1
             self.bump("seam:heap.empty_allocs")
             if arr.dtype.hasobject:
                 return arr
@@ -263,6 +267,11 @@ def _malloc_perturb(byte: int) -> None:
         _LIBC = False
 
 
+# array-creating functions of numpy whose call from numpoly code counts as an allocation request
+ALLOCATORS = ["zeros", "ones", "full", "zeros_like", "ones_like", "full_like", "indices", "arange", "array", "concatenate",
+              "stack", "vstack", "hstack", "tile", "repeat", "outer", "meshgrid", "unique"]
+
+
 def _make_proxy(env: Env) -> types.ModuleType:
     class NumpyProxy(types.ModuleType):
         def __getattr__(self, name: str) -> Any:  # only for names not set below
@@ -272,13 +281,27 @@ def _make_proxy(env: Env) -> types.ModuleType:
     proxy.__dict__["__sim_proxy__"] = True
 
     def empty(*args: Any, **kwargs: Any) -> Any:
+        env.alloc_tick()
         return env.fill_plain(real_numpy.empty(*args, **kwargs))
 
     def empty_like(*args: Any, **kwargs: Any) -> Any:
+        env.alloc_tick()
         return env.fill_plain(real_numpy.empty_like(*args, **kwargs))
 
     proxy.empty = empty
     proxy.empty_like = empty_like
+
+    def ticking(real: Callable) -> Callable:
+        def creator(*args: Any, **kwargs: Any) -> Any:
+            env.alloc_tick()
+            return real(*args, **kwargs)
+
+        creator.__name__ = getattr(real, "__name__", "creator")
+        creator.__wrapped__ = real  # type: ignore[attr-defined]
+        return creator
+
+    for name in ALLOCATORS:
+        setattr(proxy, name, ticking(getattr(real_numpy, name)))
     proxy.argsort = env.argsort
     proxy.sort = env.sort
     return proxy
